@@ -220,7 +220,7 @@ func (vc *VC) evalSpec(x SExpr, env *Env) (tv TV) {
 		if x.Forall {
 			return TV{T: Forall(vars, withPatterns(Implies(And(ranges...), body), vars)), Ty: goTy(types.Typ[types.Bool])}
 		}
-		return TV{T: Exists(vars, And(append(ranges, body)...)), Ty: goTy(types.Typ[types.Bool])}
+		return TV{T: Exists(vars, withPatterns(And(append(ranges, body)...), vars)), Ty: goTy(types.Typ[types.Bool])}
 	case *SUnary:
 		switch x.Op {
 		case "!":
